@@ -145,7 +145,10 @@ Proof.
       rewrite (byte_eqb_false b xff) by (change (b2n xff) with 255; lia).
       rewrite (byte_eqb_false b x80) by (change (b2n x80) with 128; lia).
       unfold parse_atom. destruct (N.ltb_spec (b2n b) 128); [lia|].
-      rewrite Hdec. unfold nlen. rewrite Nat2N.id.
+      rewrite Hdec. unfold nlen.
+      destruct (N.ltb_spec (N.of_nat (length (atom ++ rest))) (N.of_nat (length atom))) as [Hq|_];
+        [rewrite app_length in Hq; lia|].
+      rewrite Nat2N.id.
       destruct (Nat.ltb_spec (length (atom ++ rest)) (length atom)) as [Hl|Hl].
       { rewrite app_length in Hl. lia. }
       now rewrite firstn_app_exact, skipn_app_exact.
